@@ -125,6 +125,23 @@ def spec_from_sig(p):
 def reset_db(alias='default'):
     from django.db import connections
     conn = connections[alias]
+    if conn.in_atomic_block:
+        # Django's SQLite schema editor leaves its atomic block open when a statement fails inside it (its
+        # __exit__ runs check_constraints() first, which raises in a broken transaction): a rig concern only,
+        # the next case starts from a connection with no transaction state
+        raw = conn.connection
+        conn.in_atomic_block = False
+        conn.savepoint_ids = []
+        conn.atomic_blocks = []
+        conn.needs_rollback = False
+        conn.closed_in_transaction = False
+        conn.run_on_commit = []
+        if raw is not None:
+            try:
+                raw.close()
+            except Exception:
+                pass
+        conn.connection = None
     conn.close()
     path = conn.settings_dict['NAME']
     for p in (path, path + '-journal', path + '-wal', path + '-shm'):
